@@ -5,8 +5,9 @@ import symex
 
 
 class Analysis:
-    def __init__(self, repo, ts='yes', K='unsigned long', V='std::string', alt=False):
+    def __init__(self, repo, ts='yes', K='unsigned long', V='std::string', alt=False, lenient=False):
         self.repo = repo
+        self.lenient = lenient
         self.ts = ts
         self.prog = frontend.load_program(repo, ts=ts, K=K, V=V, alt=alt)
         self.roles = {}
@@ -16,7 +17,7 @@ class Analysis:
         self.renamed = model.canonicalise_names(self.prog)
         for name in frontend.CONTAINERS:
             cm = self.prog.classes[name]
-            self.roles[name] = model.Roles(cm)
+            self.roles[name] = model.Roles(cm, lenient=lenient)
             self.roles[name].inert = set()
             self.evals[name] = symex.Evaluator(self.prog, cm)
         for name in frontend.CONTAINERS:
